@@ -10,12 +10,16 @@ from .evalr import Evaluator
 from .sites import canon_text
 
 
+def CANON(t):
+    return T.canon(t, minmax=True)
+
+
 def raw(t):
-    return T.show(T.canon(t))
+    return T.show(CANON(t))
 
 
 def pc_text(pc):
-    c = T.canon(T.tand(*pc)) if pc else T.TRUE
+    c = CANON(T.tand(*pc)) if pc else T.TRUE
     if c == T.TRUE:
         return 'always'
     conj = c[1] if isinstance(c, tuple) and c and c[0] == 'and' else (c,)
@@ -76,14 +80,35 @@ def summarise(crate, body, args=None):
     ev = Evaluator(crate)
     top = ev.eval_entry(body, args)
     lines = []
-    all_cases = [(tuple(ev.fallthrough_pc) + pc, v) for pc, v in cases(T.canon(top))]
+    # `while !c {..}; x` leaves the loop by break and then yields x; `loop { if c { return x } .. }` returns x from inside:
+    # both are written as a return of x at the exit (when x is a function of the loop-carried values only)
+    exit_ret = {}
+    tl = [e for e in ev.events if e['kind'] == 'loop' and e['depth'] == 0 and not e['loops'] and not e.get('reduced')]
+    tu = T.unroot(top)
+    if len(tl) == 1 and not (isinstance(tu, tuple) and tu and tu[0] in ('loopval', 'never', 'unit', 'ite')) and not ev.fallthrough_pc:
+        nid = tl[0]['node'].get('_nid')
+        after = False
+        clean = True
+        for e in ev.events:
+            if e is tl[0]:
+                after = True
+                continue
+            if after and e['depth'] == 0 and not e['loops'] and e['kind'] in ('assign', 'mutcall', 'ret', 'loop', 'break'):
+                clean = False       # something else happens between the loop and the final value
+        brk = [e for e in ev.events if e['kind'] == 'break' and e['depth'] == 0 and e['loops'] == (nid,)]
+        mentions_loop = any(isinstance(y, tuple) and len(y) >= 3 and y[0] in ('havoc', 'elemhavoc') and y[-1] == nid for y in T.subterms(top))
+        if clean and brk and mentions_loop:
+            for e in brk:
+                exit_ret[id(e)] = top
+            top = ('loopval', nid)
+    all_cases = [(tuple(ev.fallthrough_pc) + pc, v) for pc, v in cases(CANON(top))]
     # early exits that are not part of the value term (`?` on an Option) are cases of the function's value too
     for e in ev.events:
         if e['kind'] == 'ret' and e['depth'] == 0 and not e['loops'] and not e.get('joined'):
-            all_cases.append((tuple(e['pc']), T.canon(e['value'])))
+            all_cases.append((tuple(e['pc']), CANON(e['value'])))
             e['as_case'] = True
     for pc, v in all_cases:
-        cond = T.canon(T.tand(*pc)) if pc else T.TRUE
+        cond = CANON(T.tand(*pc)) if pc else T.TRUE
         if cond == T.FALSE:
             continue
         lines.append(('RET ' + raw(v)) if cond == T.TRUE else f'CASE {raw(cond)} => {raw(v)}')
@@ -106,11 +131,13 @@ def summarise(crate, body, args=None):
             if nid in reduced:
                 continue    # an accumulator loop: its value is part of the terms above
             loops[nid] = e
-            head = f"{ind}LOOP[{e.get('src')}]"
+            head = f"{ind}LOOP[{'ForLoop' if e.get('src') == 'ForLoop' else 'Loop'}]"
             if e.get('iter') is not None:
                 head += ' over ' + raw(e['iter'])
             effects.append((ind, head, None))
         elif k == 'assign':
+            if e.get('derived'):
+                continue
             tgt = e.get('name', '?') + ''.join('.' + f for f in e.get('fields', ()) if f != '[]')
             effects.append((ind, f"{ind}SET {tgt} := {raw(e['value'])} WHEN {pc_text(e['pc'])}", frozenset(e['pc'])))
         elif k == 'ret':
@@ -118,9 +145,12 @@ def summarise(crate, body, args=None):
                 continue    # already one of the CASE lines
             effects.append((ind, f"{ind}RETURN {raw(e['value'])} WHEN {pc_text(e['pc'])}", frozenset(e['pc'])))
         elif k == 'break':
-            effects.append((ind, f"{ind}BREAK WHEN {pc_text(e['pc'])}", frozenset(e['pc'])))
+            if id(e) in exit_ret:
+                effects.append((ind, f"{ind}RETURN {raw(exit_ret[id(e)])} WHEN {pc_text(e['pc'])}", frozenset(e['pc'])))
+            else:
+                effects.append((ind, f"{ind}BREAK WHEN {pc_text(e['pc'])}", frozenset(e['pc'])))
         elif k == 'mutcall':
-            callt = ('call', e['callee'].split('::')[-1], tuple(T.unroot(T.canon(a)) for a in e['args'][1:]))
+            callt = ('call', e['callee'].split('::')[-1], tuple(T.unroot(CANON(a)) for a in e['args'][1:]))
             for cpc, cv in cases(callt):
                 cv = T.unroot(cv)
                 effects.append((ind, f"{ind}MUT {e.get('place')}.{cv[1]}({', '.join(raw(a) for a in cv[2])}) WHEN {pc_text(tuple(e['pc']) + tuple(cpc))}",
@@ -136,6 +166,8 @@ def summarise(crate, body, args=None):
             if x['kind'] == 'mutcall' and nid in x['loops'] and x['depth'] == 0 and x.get('target') is not None:
                 assigned[x['target']] = True
         for lid in sorted(assigned):
+            if lid in (l.get('derived') or ()):
+                continue
             init = l['env_before'].get(lid)
             b = body.binders.get(lid)
             name = b['bind']['name'] if b else f'#{lid}'
